@@ -7,18 +7,22 @@
 
   Model: MM/Model/C29.lean — histories (deliveries of genuine, replayed and forged commands from any
   peer, clock advance, cache cleanups with any legal choice of size-eviction victims, peer
-  connections) over the flooder model of MM/Model/C28.lean.  "Acts on" = `HandleSleepCommand` /
-  `HandleWakeCommand` returns true (the agent then calls Sleep()/Wake() and forwards).
+  connections) over the flooder model of MM/Model/C28.lean, after
+    fixes/C29-verify-before-mark.patch  (a command enters the seen cache only after it verified),
+    fixes/C29-sleep-cache-ttl.patch     (sleep/wake commands are remembered for max(TTL, 2·window)).
+  "Acts on" = `HandleSleepCommand` / `HandleWakeCommand` returns true (the agent then calls
+  Sleep()/Wake() and forwards).
 
-  * `C29_statement` (at most once over EVERY history) is REFUTED on the code, twice:
-      `C29_refuted_ttl`    default configuration (TTL = window = 5 min): a command stamped near
-                           `now + window` is accepted, its cache entry expires after TTL, and the replay
-                           is still inside the timestamp window — accepted again;
-      `C29_refuted_evict`  forged ids are marked seen BEFORE verification, so an attacker without the key
-                           fills the cache; the size eviction may delete the genuine entry; replay accepted.
-    Both are open findings (known/C29.json) — repairing them changes cache life-time / eviction design.
-  * `C29_partial`: with `TTL ≥ 2·window` and no size eviction along the history, at most once — for
-    every signature predicate, every interleaving of traffic, cleanups and clock advance.
+  * `C29_partial`: if no cleanup along the history has to size-evict, every signed command is
+    accepted at most once — for every configuration (any TTL, any window), every signature predicate,
+    every interleaving of genuine, replayed and forged traffic, cleanups and clock advance.
+  * `C29_statement` (at most once over EVERY history) remains REFUTED (`C29_refuted`): the cache is
+    size-limited and evicts arbitrary entries, so a history with more than MaxSeenCacheSize VALIDLY
+    SIGNED commands inside two windows can evict a genuine entry whose replay is then accepted.
+    After the fix this needs the key holder's own traffic (forged commands no longer enter the
+    cache); it is kept as an open finding.
+  * `C29_pinned_ttl_refuted`, `C29_pinned_forged_evict_refuted`: the two defects of the code before
+    the fixes (regression witnesses; the fixed model refuses both replays).
 -/
 import MM.Lemmas.C29
 
@@ -39,41 +43,51 @@ def genuineAhead : Cmd := { origin := 4, id := 7, ts := 1800000000 + 299, sig :=
 def ttlHistory : List Ev :=
   [.deliver .sleep 1 genuineAhead, .advance 301000000000, .cleanup [], .deliver .sleep 2 genuineAhead]
 
-theorem C29_ttl_witness : accepts idealV dCfg genuineAhead (HState.init t0) ttlHistory = 2 := by
+/-- Before the fix (cache TTL = SeenCacheTTL = window): the entry expires after 301 s while the
+    command, stamped 299 s ahead, is still inside its window — accepted twice.  Fixed code: once. -/
+theorem C29_pinned_ttl_refuted :
+    acceptsPinned idealV dCfg genuineAhead (HState.init t0) ttlHistory = 2 ∧
+    accepts idealV dCfg genuineAhead (HState.init t0) ttlHistory = 1 := by
   decide
 
-theorem C29_refuted_ttl : ¬ C29_statement := by
-  intro h
-  have := h idealV dCfg genuineAhead t0 ttlHistory (by decide) (by decide)
-  rw [C29_ttl_witness] at this
-  exact absurd this (by decide)
-
-/-- Small cache (2 entries), long TTL: eviction alone breaks the property. -/
-def sCfg : FCfg := { dCfg with maxSize := 2, ttl := 600000000000 }
+/-- Small cache (2 entries). -/
+def sCfg : FCfg := { dCfg with maxSize := 2 }
 def genuine : Cmd := { origin := 4, id := 7, ts := 1800000000, sig := .signed 0 4 7 1800000000, seenBy := [] }
 def forged (i : Nat) : Cmd := { origin := 4, id := 100 + i, ts := 1800000000, sig := .garbage, seenBy := [] }
+def other (i : Nat) : Cmd := { origin := 4, id := 100 + i, ts := 1800000000, sig := .signed 0 4 (100 + i) 1800000000, seenBy := [] }
 
-def evictHistory : List Ev :=
+def forgedEvictHistory : List Ev :=
   [.deliver .sleep 1 genuine, .deliver .sleep 1 (forged 1), .deliver .sleep 1 (forged 2), .deliver .sleep 1 (forged 3),
+   .cleanup [(4, 7), (4, 101)], .deliver .sleep 1 genuine]
+
+/-- Before the fix forged ids were marked seen before verification: a peer WITHOUT the key fills
+    the cache, size eviction drops the genuine entry, the replay is accepted.  Fixed code: forged
+    commands never enter the cache, nothing is evicted, the replay is refused. -/
+theorem C29_pinned_forged_evict_refuted :
+    acceptsPinned idealV sCfg genuine (HState.init t0) forgedEvictHistory = 2 ∧
+    accepts idealV sCfg genuine (HState.init t0) forgedEvictHistory = 1 := by
+  decide
+
+/-- What is left after the fixes: eviction by more than MaxSeenCacheSize VALIDLY signed commands. -/
+def evictHistory : List Ev :=
+  [.deliver .sleep 1 genuine, .deliver .sleep 1 (other 1), .deliver .sleep 1 (other 2), .deliver .sleep 1 (other 3),
    .cleanup [(4, 7), (4, 101)], .deliver .sleep 1 genuine]
 
 theorem C29_evict_witness : accepts idealV sCfg genuine (HState.init t0) evictHistory = 2 := by
   decide
 
-theorem C29_refuted_evict : ¬ C29_statement := by
+theorem C29_refuted : ¬ C29_statement := by
   intro h
   have := h idealV sCfg genuine t0 evictHistory (by decide) (by decide)
   rw [C29_evict_witness] at this
   exact absurd this (by decide)
 
-theorem C29_refuted : ¬ C29_statement := C29_refuted_ttl
-
-/-- **At most once** when the cache remembers long enough and nothing is size-evicted: for every
-    verification predicate, configuration with `TTL ≥ 2·window`, starting instant and history in
-    which no cleanup has to size-evict (`noEvict`, a decidable condition on the history), every
-    signed command is accepted at most once. -/
+/-- **At most once** when nothing is size-evicted: for every verification predicate, every
+    configuration (any TTL and window), every starting state and every history in which no cleanup
+    has to size-evict (`noEvict`, a decidable condition on the history), every signed command is
+    accepted at most once. -/
 theorem C29_partial (V : Verifier) (cfg : FCfg) (target : Cmd)
-    (hk : cfg.signing = true) (hw : cfg.window < 2^63 - 1) (httl : cfg.ttl ≥ 2 * cfg.window) :
+    (hk : cfg.signing = true) (hw : cfg.window < 2^63 - 1) :
     ∀ (evs : List Ev) (s : HState), noEvict V cfg s evs = true → accepts V cfg target s evs ≤ 1 := by
   intro evs
   induction evs with
@@ -100,7 +114,7 @@ theorem C29_partial (V : Verifier) (cfg : FCfg) (target : Cmd)
         | false => simpa using ih'
         | true =>
           have hp := accept_protects V cfg target s k from_ c hk hw hacc hsame
-          have := accepts_protected V cfg target hk hw httl es _ hne2 hp
+          have := accepts_protected V cfg target hk hw es _ hne2 hp
           simp [this]
     | advance d => simpa [stepEv] using ih'
     | cleanup vs => simpa [stepEv] using ih'
@@ -116,11 +130,13 @@ theorem C29_partial (V : Verifier) (cfg : FCfg) (target : Cmd)
       subst this
       simpa using ih'
 
-/-- Hypotheses of `C29_partial` are satisfiable, and the positive case exists: with TTL = 2·window
-    the TTL replay of `C29_ttl_witness` is refused. -/
-def okCfg : FCfg := { dCfg with ttl := 600000000000 }
-example : okCfg.signing = true ∧ okCfg.window < 2^63 - 1 ∧ okCfg.ttl ≥ 2 * okCfg.window := by decide
-example : noEvict idealV okCfg (HState.init t0) ttlHistory = true := by decide
-example : accepts idealV okCfg genuineAhead (HState.init t0) ttlHistory = 1 := by decide
+/-- Hypotheses of `C29_partial` are satisfiable and the positive case exists (default configuration,
+    the TTL replay history: no eviction, accepted exactly once). -/
+example : dCfg.signing = true ∧ dCfg.window < 2^63 - 1 := by decide
+example : noEvict idealV dCfg (HState.init t0) ttlHistory = true := by decide
+set_option maxRecDepth 8000 in
+example : noEvict idealV sCfg (HState.init t0) forgedEvictHistory = true := by decide
+set_option maxRecDepth 8000 in
+example : noEvict idealV sCfg (HState.init t0) evictHistory = false := by decide
 
 end MM.C29
